@@ -328,6 +328,18 @@ pub fn extremal(tier: Tier) -> u64 {
             n += 1;
         }
     }
+    // boards the builder assembles with every boundary value of its two u16 clocks (the builder
+    // takes the whole u16 range, the parser only four digits), driven two plies through every
+    // safe operation: the counters are incremented by every quiet move / every black move
+    for f in ["1n2k3/8/8/8/8/8/8/1N2K3 w - - 0 1", "1n2k3/8/8/8/8/8/8/1N2K3 b - - 0 1", "4k3/4p3/8/8/8/8/4P3/4K3 w - - 0 1", "4k3/4p3/8/8/8/8/4P3/4K3 b - - 0 1"] {
+        let rp = refchess::Position::from_fen(f).unwrap();
+        for half in [0u16, 99, 100, 9999, 10000, 65534, 65535] {
+            for full in [0u16, 1, 9999, 10000, 65534, 65535] {
+                set_case(|| json!({"property": "C07", "case": {"kind": "builder-clocks", "fen": f, "half": half, "full": full}}).to_string());
+                n += builder_clock_case(&rp, half, full);
+            }
+        }
+    }
     // degenerate search roots driven for more than 65 536 deepening passes
     let passes = tier.pick(70_000u64, 140_000);
     for f in ["7k/5Q2/6K1/8/8/8/8/8 b - - 0 1", "7k/6Q1/6K1/8/8/8/8/8 b - - 0 1", "k7/8/8/8/8/8/8/K7 w - - 99 80", "k7/8/8/8/8/8/8/K7 w - - 100 80"] {
@@ -366,6 +378,28 @@ pub fn extremal(tier: Tier) -> u64 {
         let _ = n;
     });
     n + 1200
+}
+
+/// one board assembled through the builder with the given clocks, driven through the safe API
+pub fn builder_clock_case(rp: &refchess::Position, half: u16, full: u16) -> u64 {
+    use chess_engine::{Engine, ThreeFold};
+    let mut bld = chess_movegen::Board::builder();
+    bld.turn(real_color(rp.turn));
+    bld.half_move_clock(half);
+    bld.full_move_clock(full);
+    for s in 0..64u8 {
+        if let Some((c, p)) = rp.at(s) {
+            let _ = bld.place(pos(s), real_color(c), real_piece(p));
+        }
+    }
+    let Ok(b) = bld.build() else { return 0 };
+    let mut n = crate::fenfuzz::exercise(&b, 2);
+    let mut e = Engine::default();
+    let tf = ThreeFold::new();
+    let t = crate::search::CountingTimeout::new(300);
+    let _ = e.search(&b, &tf, &t);
+    n += 1;
+    n
 }
 
 pub fn worker_main(cmd: &str, args: &Args) -> i32 {
